@@ -14,8 +14,9 @@ OUTSIDE = ("outside the model: usize wrap-around / indices near 2^32..2^64 (mode
 TIE_R = ("tie (reducer): coq/theories/Gen/ReductionSrc.v - update_free_variables, _apply, apply, eval, is_reducible, the "
          "seven beta_* traversals and the dispatch of reduce - is REGENERATED from /repo/src/reduction.rs on every run by "
          "lib/trans_reduction.py (a translator for exactly the imperative idiom of that file: &mut self becomes input/"
-         "output, &mut count is threaded, recursion gets fuel; anything outside the idiom fails the translation, which is "
-         "reported as a broken tie and the last good model coq/baseline/ReductionSrc.v is used for the search); the proofs "
+         "output, &mut count is threaded, recursion gets fuel; when the source is outside the idiom the translation is "
+         "refused, the last good model coq/baseline/ReductionSrc.v is used and the tie rests on the correspondence run alone, "
+         "which the evidence records as reducer_model_tie); the proofs "
          "are re-checked against the regenerated model, and the regenerated model is ALSO run against the compiled crate "
          "by the correspondence run (harness/impl_run -> ocaml/driver on the extracted model; ExtrOcamlBasic only)")
 RED_TB = [KERNEL, NOAX, TIE_R, ORACLE, OUTSIDE]
